@@ -95,12 +95,21 @@ func DomFrontier(g graph.BiGraph, root int, idom []int) [][]int {
 
 	df := make([][]int, g.NumNodes())
 	for b, bdom := range idom {
+		if bdom == -1 && b != root {
+			// b is unreachable.
+			continue
+		}
 		preds := g.In(b)
 		if len(preds) < 2 {
 			continue
 		}
 
 		for _, pred := range preds {
+			if idom[pred] == -1 && pred != root {
+				// pred is unreachable, so it has no
+				// dominators to walk up through.
+				continue
+			}
 			runner := pred
 			for runner != bdom {
 				// Add b to runner's DF set.
